@@ -125,6 +125,9 @@ func runCheck(P *Prog, opt CheckOpts) int {
 			continue
 		}
 		f := P.fnByKey[k]
+		if f == nil && strings.HasPrefix(c.Impl, "@") && !strings.Contains(c.Name, "(") && strings.Count(c.Name, ".") == 1 {
+			continue // callback contract of a struct field (Type.field)
+		}
 		tags := c.AllTags()
 		relevant := prop == "all" || hasTag(tags, prop) || (prop == "C20" && !c.Trusted)
 		if c.Trusted {
